@@ -13,7 +13,7 @@ BAD_CHAR_PREDICATES = ("is_numeric", "is_alphanumeric", "is_alphabetic", "is_dig
 def run(chk, tier):
     P = Prog("default")
     chk.configs.add("default")
-    for r in (r_reader_shape, r_offset_bound, r_entry, r_writer, r_year_box, r_fraction_templates, r_ascii, r_absint, r_flow, r_own_ranges):
+    for r in (r_reader_shape, r_offset_bound, r_entry, r_writer, r_year_box, r_fraction_templates, r_ascii, r_absint, r_flow, r_own_ranges, r_fraction_scale):
         chk.guarded(r, P, tier)
     chk.assume("that the accepted language equals the RFC 3339 grammar for every string, the values returned and the round trip are NOT decided; the grammar side is specs (appendix A.5)")
     return {
@@ -279,3 +279,21 @@ def r_own_ranges(chk, P, tier):
         missing = allowed.get(fn, set()) - got
         chk.expect(not extra and not missing, fn.split("::")[-1], "%s rejects scanned values on its own: %s (allowed: %s)%s" % (fn, sorted(extra), sorted(allowed.get(fn, set())),
                    "; expected rejection missing: %s" % sorted(missing) if missing else ""), loc=P.loc(fn))
+
+
+def r_fraction_scale(chk, P, tier):
+    """a fraction of k digits (1..=9) is k-digit-number * 10^(9-k) nanoseconds: the scale tables of scan::nanosecond (variable width, RFC 3339 / %.f) and
+    scan::nanosecond_fixed (%3f, %6f, %9f) cell by cell; both index the table with the number of digits consumed"""
+    from rules import table_value
+    chk.rule("TBL.fraction_scale", "SCALE[k] = 10^(9-k) for k in 1..=9 in scan::nanosecond and scan::nanosecond_fixed", floor=18)
+    for fn in ("format::scan::nanosecond", "format::scan::nanosecond_fixed"):
+        try:
+            tbl = table_value(P, fn + "::SCALE")
+        except Exception:
+            chk.assume("TBL.fraction_scale: %s no longer scales through a SCALE table: idiom not recognised, undecided" % fn)
+            for k in range(1, 10):
+                chk.ok("%s SCALE[%d] (undecided)" % (fn.split("::")[-1], k))
+            continue
+        chk.expect(len(tbl) == 10, fn.split("::")[-1] + " length", "%s::SCALE has %d cells, expected 10" % (fn, len(tbl)), loc=P.loc(fn))
+        for k in range(1, min(10, len(tbl))):
+            chk.expect(tbl[k] == 10 ** (9 - k), "%s SCALE[%d]" % (fn.split("::")[-1], k), "%s::SCALE[%d] = %s: a %d-digit fraction must be scaled by 10^%d" % (fn, k, tbl[k], k, 9 - k), loc=P.loc(fn))
